@@ -60,7 +60,12 @@ type m20UpConn struct {
 	pending []byte
 }
 
+var m20UpDead bool // the underlying agent does not answer (forwarding fails)
+
 func (u *m20UpConn) Write(p []byte) (int, error) {
+	if m20UpDead {
+		return 0, errors.New("model: underlying agent gone")
+	}
 	u.got = append(u.got, p...)
 	for len(u.got) >= 4 {
 		l := int(u.got[0])<<24 | int(u.got[1])<<16 | int(u.got[2])<<8 | int(u.got[3])
@@ -129,8 +134,12 @@ func H20_serve_broadcast() {
 		frame = append(frame, vNondetU8("second"))
 	}
 	c := &m20NetConn{in: append([]byte{0, 0, 0, byte(len(frame))}, frame...)}
+	// serving the request may fail afterwards (the underlying agent is gone):
+	// the waiters of its code were released when it was received
+	m20UpDead = vChoose(2, "underlying-agent-gone") == 1
 	vSyncReset()
 	crashed := vCatch(func() { ServeAgent(srv, c) })
+	m20UpDead = false
 	vAssert(!crashed, "C20.no-request-code-crashes-the-server")
 	log := vSyncLog()
 	if first < 40 {
